@@ -19,6 +19,7 @@ import (
 	"runtime"
 	"runtime/debug"
 	"strconv"
+	"strings"
 	"sync"
 	"syscall"
 	"time"
@@ -246,7 +247,7 @@ func (st *state) exec(op *plan.Op, shared *scripted) (res plan.Res) {
 	var s, p string
 	var src *scripted
 	switch op.Fn {
-	case "enc", "encchk", "genhold":
+	case "enc", "encchk", "genhold", "encslab":
 		if op.Fn == "genhold" {
 			p = op.Pass() // the second entropy travels in the passphrase field
 		}
@@ -333,6 +334,19 @@ func (st *state) exec(op *plan.Op, shared *scripted) (res plan.Res) {
 			res.Err2 = errInfo(bip39.CheckMnemonic(out, bip39.Language(op.L)))
 			b := bip39.IsMnemonicValid(out, bip39.Language(op.L))
 			res.B, res.OutOK = &b, true
+		case "encslab":
+			// the caller carves several entropies of op.N bytes out of ONE buffer and
+			// encodes them one after the other; the buffer is reported afterwards
+			size := int(op.N)
+			var outs []string
+			for off := 0; size > 0 && off+size <= len(ent); off += size {
+				o, err := bip39.NewMnemonicByEntropy(ent[off:off+size], bip39.Language(op.L))
+				if err != nil {
+					res.Err = errInfo(err)
+				}
+				outs = append(outs, o)
+			}
+			res.Out, res.OutOK = outHex([]byte(strings.Join(outs, "\n"))), true
 		case "genhold":
 			// generate from the first entropy, HOLD the result, generate from the second,
 			// then validate the held mnemonic and report it as it reads now
@@ -459,7 +473,9 @@ func (st *state) exec(op *plan.Op, shared *scripted) (res plan.Res) {
 			res.Reads = append(res.Reads, ev)
 		}
 	}
-	if (op.Fn == "enc" || op.Fn == "encchk") && full != nil {
+	if op.Fn == "encslab" {
+		res.IA = bufAfter(ent)
+	} else if (op.Fn == "enc" || op.Fn == "encchk") && full != nil {
 		res.IA = bufAfter(full)
 	} else if op.Fn == "enc" || op.Fn == "encchk" {
 		res.IA = bufAfter(ent)
